@@ -124,7 +124,16 @@ func runFault(c *corr.Ctx, s *cu.Spec, in *FaultInput, name string) {
 		}
 		ts += 3000
 	}
-	for _, fl := range in.Faults {
+	stream = applyFaults(stream, in.Faults)
+	decodeAndJudge(c, s, inst, &cs, op, in, fs, counts, stream, in.Faults, false)
+	cs.Nontrivial = len(in.Faults) > 0
+	c.Add(cs)
+}
+
+// applyFaults applies "drop i" | "dup i" | "swap i" | "dropframe f" in order (indices refer to the
+// stream as it is at that moment).
+func applyFaults(stream []tagged, faults []string) []tagged {
+	for _, fl := range faults {
 		var kind string
 		var i int
 		if n, _ := fmt.Sscanf(fl, "%s %d", &kind, &i); n != 2 || i < 0 || i >= len(stream) {
@@ -149,6 +158,15 @@ func runFault(c *corr.Ctx, s *cu.Spec, in *FaultInput, name string) {
 			}
 		}
 	}
+	return stream
+}
+
+// decodeAndJudge feeds the stream to a fresh real decoder (every call recorded for the model) and
+// evaluates the C07 clause; with strict (a stream without faults from a clean decoder) also the C03
+// clauses: "more" on every packet of a frame but the last, exactly the frame at the last one.
+func decodeAndJudge(c *corr.Ctx, s *cu.Spec, inst *cu.Instance, cs *corr.Case, op func(o, impl string), in any,
+	fs []cu.Frame, counts []int, stream []tagged, faults []string, strict bool) {
+	_ = cs
 	intact := make([]bool, len(fs))
 	firstPos := make([]int, len(fs))
 	lastPos := make([]int, len(fs))
@@ -185,6 +203,7 @@ func runFault(c *corr.Ctx, s *cu.Spec, in *FaultInput, name string) {
 	dec := inst.NewDec()
 	log := lastLog
 	outs := make([]cu.Frame, len(stream))
+	classes := make([]string, len(stream))
 	for j, t := range stream {
 		var f cu.Frame
 		var derr error
@@ -206,6 +225,7 @@ func runFault(c *corr.Ctx, s *cu.Spec, in *FaultInput, name string) {
 		case derr != nil:
 			cls = s.Classify(derr)
 		}
+		classes[j] = cls
 		out := cls
 		if cls == "ok" {
 			out = "ok " + unitsStr(f)
@@ -251,11 +271,22 @@ func runFault(c *corr.Ctx, s *cu.Spec, in *FaultInput, name string) {
 				c.Dist("h264.c07-known-lag")
 			}
 			c.Violate(corr.Violation{Property: "C07", Clause: c07Clause, Key: s.Name + "-" + key, Where: "pkg/format/rtp" + s.Name,
-				Input: in, Detail: fmt.Sprintf("frame %d (arrival positions %d..%d) returned %d times in that window; faults %v", fi, firstPos[fi], lastPos[fi], hits, in.Faults)})
+				Input: in, Detail: fmt.Sprintf("frame %d (arrival positions %d..%d) returned %d times in that window; faults %v", fi, firstPos[fi], lastPos[fi], hits, faults)})
 		}
 	}
-	cs.Nontrivial = len(in.Faults) > 0
-	c.Add(cs)
+	if strict {
+		for j, t := range stream {
+			last := t.idx == counts[t.frame]-1
+			switch {
+			case !last && (outs[j] != nil || classes[j] != "more"):
+				c.Violate(corr.Violation{Property: "C03", Clause: "'more packets needed' before the completing packet", Key: s.Name + "-foreign-roundtrip-early",
+					Where: "pkg/format/rtp" + s.Name, Input: in, Detail: fmt.Sprintf("frame %d packet %d/%d: decoder answered %s", t.frame, t.idx, counts[t.frame], classes[j])})
+			case last && (outs[j] == nil || !frameEq(fs[t.frame], outs[j])):
+				c.Violate(corr.Violation{Property: "C03", Clause: "decoding the packets of a valid frame returns the original frame", Key: s.Name + "-foreign-roundtrip",
+					Where: "pkg/format/rtp" + s.Name, Input: in, Detail: fmt.Sprintf("frame %d: decoder answered %s at the last packet (%d NALUs in, %d out)", t.frame, classes[j], len(fs[t.frame]), len(outs[j]))})
+			}
+		}
+	}
 }
 
 // shapes of access units at payload limit 12 (H264) / 14 (H265): single, aggregated, fragmented,
